@@ -85,6 +85,12 @@ def workload():
     big2 = ''.join(cards[:450] + ['<div class="card"><p>card 450 changed again</p></div>'] + cards[451:])
     for name, x, y in (('big-0-1', big0, big1), ('big-0-1-again', big0, big1), ('big-1-2', big1, big2), ('big-0-0', big0, big0)):
         cases.append((name, 'html_token', dict(a_text=x, b_text=y, include='insertions')))
+    # arguments the differ refuses (an unknown rule after a valid one, an unknown include value is accepted silently): the refusal is
+    # part of the result and must be the same every time
+    for k in range(3):
+        cases.append(('bad-rules-%d' % k, 'html_token', dict(a_text=arch_a, b_text=arch_b, include='combined', url_rules='jsessionid,waybak')))
+        cases.append(('bad-rules-first-%d' % k, 'html_token', dict(a_text=arch_a, b_text=arch_b, url_rules='nope,wayback')))
+        cases.append(('bad-option-%d' % k, 'html_token', dict(a_text=arch_a, b_text=arch_b, content_type_options='nonsense')))
     # pages nested deeper than the interpreter's default recursion limit, first and last in the workload: whether they can be diffed
     # must not depend on which differ (or module) happened to run before in this process
     deep_a = '<div>' * 1200 + '<p>bottom old</p>' + '</div>' * 1200
